@@ -271,32 +271,32 @@ def x86Epilog (f : Frame) : List Instr :=
 
 /-! ### AArch64: `PrologEpilogInfo::init`, `emit_prolog`, `emit_epilog` -/
 
-/-- one `RegPair`: (first id, second id or none, offset) -/
-abbrev Pair := Nat × Option Nat × Nat
+/-- a save slot of the AArch64 prolog: (group, register view size, first id, second id or none, offset) -/
+abbrev PSlot := Nat × Nat × Nat × Option Nat × Nat
 
-/-- pairs of the registers `ids` starting at `offset` (a pair takes `2 * slot`, a trailing single register
-`align_up(slot, align)` - fixes/C07-4.patch, the pinned code took `2 * slot`); returns the pairs and the next offset -/
-def pairUp (slot align : Nat) : List Nat → Nat → List Pair × Nat
-  | [], off => ([], off)
-  | [r], off => ([(r, none, u16 off)], off + alignUp slot align)
-  | r1 :: r2 :: rest, off =>
-    let (ps, o) := pairUp slot align rest (off + slot * 2)
-    ((r1, some r2, u16 off) :: ps, o)
+/-- `PrologEpilogInfo::init` for one group, fused with the emit loops: the register ids in iteration order are
+paired; a pair takes `2 * slot` bytes, a trailing single register `single` bytes (fixes/C07-4.patch:
+`align_up(slot, alignment)`; the pinned code took `2 * slot`). `RegPair::offset` is a `uint16_t`.
+The flag says `mov x29, sp` follows the store (`i == 0 && frame.has_preserved_fp()`). -/
+def groupItems (g sz slot : Nat) (fp : Bool) : Bool → List Nat → Nat → List (PSlot × Bool)
+  | _, [], _ => []
+  | first, [r], off => [((g, sz, r, none, u16 off), first && fp)]
+  | first, r1 :: r2 :: rest, off =>
+    ((g, sz, r1, some r2, u16 off), first && fp) :: groupItems g sz slot fp false rest (off + slot * 2)
 
-structure PEI where
-  gp : List Pair
-  vec : List Pair
-  total : Nat
+/-- offset after the last pair of a group -/
+def groupEnd (slot single : Nat) : List Nat → Nat → Nat
+  | [], off => off
+  | [_], off => off + single
+  | _ :: _ :: rest, off => groupEnd slot single rest (off + slot * 2)
 
-def peiInit (f : Frame) : PEI :=
-  let slot0 := f.srSize 0
-  let saved0 := f.saved 0
-  let (fpPair, off0, saved0) :=
-    if f.hasFP then ([((29 : Nat), some (30 : Nat), (0 : Nat))], slot0 * 2, clearBit (clearBit saved0 29) 30)
-    else ([], 0, saved0)
-  let (gpPairs, off1) := pairUp slot0 (f.srAlign 0) (bitsAsc saved0 32) off0
-  let (vecPairs, off2) := pairUp (f.srSize 1) (f.srAlign 1) (bitsAsc (f.saved 1) 32) off1
-  { gp := fpPair ++ gpPairs, vec := vecPairs, total := off2 }
+/-- GP registers in save order: the (FP, LR) pair first when the frame pointer is preserved -/
+def a64GpIds (f : Frame) : List Nat :=
+  if f.hasFP then 29 :: 30 :: bitsAsc (clearBit (clearBit (f.saved 0) 29) 30) 32 else bitsAsc (f.saved 0) 32
+def a64VecIds (f : Frame) : List Nat := bitsAsc (f.saved 1) 32
+def a64GpEnd (f : Frame) : Nat := groupEnd (f.srSize 0) (alignUp (f.srSize 0) (f.srAlign 0)) (a64GpIds f) 0
+/-- `PrologEpilogInfo::size_total` -/
+def a64Total (f : Frame) : Nat := groupEnd (f.srSize 1) (alignUp (f.srSize 1) (f.srAlign 1)) (a64VecIds f) (a64GpEnd f)
 
 /-- size of the register view used for group `g` (fixes/C07-2.patch: the vector view follows the
 declared save size: `d` for 8, `q` for 16; the pinned code always used `d`) -/
@@ -308,16 +308,10 @@ def a64Adjust (adj : Nat) (mk : Int → Instr) : Option (List Instr) :=
   else if adj ≤ 0xFFFFFF then some [mk ((adj &&& 0xFFF : Nat)), mk ((adj &&& 0xFFF000 : Nat))]
   else none
 
-/-- a save slot of the AArch64 prolog: (group, register view size, first id, second id or none, offset) -/
-abbrev PSlot := Nat × Nat × Nat × Option Nat × Nat
-
-/-- the pairs of both groups in emission order; the flag says `mov x29, sp` follows the store
-(`i == 0 && frame.has_preserved_fp()` inside the loop over each group) -/
+/-- the pairs of both groups in emission order -/
 def a64Items (f : Frame) : List (PSlot × Bool) :=
-  let pei := peiInit f
-  let tag (g : Nat) (pairs : List Pair) : List (PSlot × Bool) :=
-    pairs.zipIdx.map fun ((r1, r2, off), i) => ((g, a64ViewSize f g, r1, r2, off), decide (i = 0) && f.hasFP)
-  tag 0 pei.gp ++ tag 1 pei.vec
+  groupItems 0 (a64ViewSize f 0) (f.srSize 0) f.hasFP true (a64GpIds f) 0
+  ++ groupItems 1 (a64ViewSize f 1) (f.srSize 1) f.hasFP true (a64VecIds f) (a64GpEnd f)
 
 /-- the pair at offset 0 carries the whole `sp` adjustment of the save area (pre-index) -/
 def a64St (total : Nat) (p : PSlot) : Instr :=
@@ -329,10 +323,10 @@ def a64Ld (total : Nat) (p : PSlot) : Instr :=
   else Instr.ldp p.1 p.2.1 p.2.2.1 p.2.2.2.1 31 (toI32 p.2.2.2.2) .fixed
 
 def a64Stores (f : Frame) : List Instr :=
-  (a64Items f).flatMap fun (p, mv) => a64St (peiInit f).total p :: (if mv then [Instr.mov 29 31] else [])
+  (a64Items f).flatMap fun (p, mv) => a64St (a64Total f) p :: (if mv then [Instr.mov 29 31] else [])
 
 def a64Loads (f : Frame) : List Instr :=
-  (a64Items f).reverse.map fun (p, _) => a64Ld (peiInit f).total p
+  (a64Items f).reverse.map fun (p, _) => a64Ld (a64Total f) p
 
 def a64Bti (f : Frame) : List Instr := if f.hasIBP then [Instr.nop "bti #3"] else []
 
